@@ -25,7 +25,7 @@ from vp.common import REPO, PYTHON
 SRC = "symplyphysics/core/experimental/vectors/__init__.py"
 
 STATIC = ["sort_sign_spec", "sort_sign_swap", "sort_sign_sorted", "ordered_mul_sound", "ordered_mul_sound_symmetric",
-    "simplify_sound", "reference_rules_sound", "binet_cauchy_identity", "norm_homogeneous"]
+    "simplify_sound", "reference_rules_sound", "binet_cauchy_identity", "norm_homogeneous", "diff_terminates_and_leibniz"]
 
 PRE_RULES = """From Coq Require Import List ZArith Bool Reals Lra.
 From VP Require Import Model.Vec3 Model.SortSign Model.VecAlg Proofs.Vec3Proofs Proofs.SortSignProofs Proofs.VecAlgProofs.
@@ -415,7 +415,7 @@ def classify_recursion(cycle):
 def layer3(ctx, failed_rules):
     rng = ctx.rng
     ntrees = ctx.pick(300, 2500)
-    nranks = ctx.pick(2, 3)
+    nranks = ctx.pick(3, 3)
     seeds = ctx.pick([None, 1], [None, 1, 2, 3])
     jobs_by_seed = {s: [] for s in seeds}
     meta = {}
@@ -558,9 +558,72 @@ def decide_trees(ctx, meta, results, failed_rules, stream, hist_tags, hist_depth
                 "identity_order": meta[jid]["rank"], "output": r["out_str"], "lemma": r["statement"][:300]})
 
 
+def embed(r) -> str:
+    """recipe -> term of Model/VecDiff.v (pv / ps); a vector function becomes PFun with value f_i and derivative df_i"""
+    t = r[0]
+    g = embed
+    if t == "vsym":
+        return f"(PSym v{r[1]})"
+    if t == "vfun":
+        return f"(PFun (fun _ => f{r[1]}) (fun _ => df{r[1]}))"
+    if t == "vzero":
+        return "(PSym vzero)"
+    if t == "vadd":
+        return f"(PAddV {g(r[1])} {g(r[2])})"
+    if t == "vscale":
+        return f"(PScaleV {g(r[1])} {g(r[2])})"
+    if t == "cross":
+        return f"(PCrossV {g(r[1])} {g(r[2])})"
+    if t == "int":
+        return f"(PConst {vx.zlit(r[1])})"
+    if t == "ssym":
+        return f"(PConst s{r[1]})"
+    if t == "par":
+        return "PPar"
+    if t == "sadd":
+        return f"(PAddS {g(r[1])} {g(r[2])})"
+    if t == "smul":
+        return f"(PMulS {g(r[1])} {g(r[2])})"
+    if t == "dot":
+        return f"(PDotS {g(r[1])} {g(r[2])})"
+    if t == "mixed":
+        return f"(PMixedS {g(r[1])} {g(r[2])} {g(r[3])})"
+    if t == "norm":
+        return f"(PNormS {g(r[1])})"
+    raise vx.Unsupported(t)
+
+
+DSPEC_PREAMBLE = vtree.TV_PREAMBLE + "From VP Require Import Model.VecDiff.\n"
+
+
+def diff_spec_lemmas(ctx, meta):
+    """the product rule the harness applies to recipes (vx.diff_recipe) is the structural derivative D of
+    Model/VecDiff.v, about which diff_terminates_and_leibniz is proved"""
+    lemmas = []
+    for jid, job in meta.items():
+        rec = vtree.totuple(job["recipe"])
+        atoms = {"v": set(range(job["nv"])), "s": set(range(job["ns"])), "f": set(range(job.get("nf", 0))), "par": True}
+        if vx.is_vec(rec):
+            lhs = f"pval_v (Dv {embed(rec)}) t"
+        else:
+            lhs = f"pval_s (Ds {embed(rec)}) t"
+        lemmas.append(coqrun.Lemma(f"dspec_{jid}", f"forall {vx.binder(atoms)}, {lhs} = {vx.coq_of_recipe(vx.diff_recipe(rec))}",
+            "intros. cbn [pval_s pval_v Ds Dv]. timeout 60 v3_finish.", vx.show_recipe(rec)))
+    res = coqrun.prove_lemmas(ctx, "dspec", DSPEC_PREAMBLE, lemmas, per_file=20, timeout=600)
+    ok = sum(v == "ok" for v in res.values())
+    ctx.obligations(len(lemmas), ok)
+    ctx.coverage["diff_spec_lemmas"] = {"lemmas": len(lemmas), "proved": ok}
+    for name, st in res.items():
+        if st != "ok":
+            jid = int(name.split("_")[1])
+            ctx.violation(f"C14:dspec:{vx.show_recipe(vtree.totuple(meta[jid]['recipe']))}", "the harness' product rule on a recipe differs from "
+                "the structural derivative of Model/VecDiff.v", {"kind": "broken-tie", "theorem_or_tie": f"generated lemma {name}",
+                "coq_error": st[-400:]}, False)
+
+
 def layer_diff(ctx, failed_rules):
     rng = ctx.rng
-    n = ctx.pick(80, 600)
+    n = ctx.pick(120, 600)
     meta, jobs = {}, []
     hist_tags, hist_depth = {}, {}
     distinct = set()
@@ -580,6 +643,7 @@ def layer_diff(ctx, failed_rules):
     for r in results.values():
         r["hashseed"] = 0
     decide_trees(ctx, meta, results, failed_rules, "diff", hist_tags, hist_depth, len(distinct))
+    diff_spec_lemmas(ctx, meta)
 
 
 # ---------------------------------------------------------------------------------------------
